@@ -249,3 +249,32 @@ Check reach_never_refused :
     Forall (fun e => exists b, enc_pnlri p (addpath_for c f) false e = Ok b /\ len b <= 1000) es ->
     exists frames, encode_to p c (MReach f nh attrs es) = Ok frames.
 Print Assumptions reach_never_refused.
+
+(* (13) The same as (3) for labeled-unicast (RFC 8277) and VPN (RFC 4364) entries with any label
+   stack whose NLRI length fits its octet (24 * labels (+ 64) + prefix bits < 256): from every
+   frame the reader recovers exactly the entries of its chunk -- path identifier, label
+   stack, route distinguisher, prefix. *)
+Theorem decode_encode_routes_labeled :
+  forall (p : profile) (c : codec) (f : N) (vpn : bool) (nh : option (list N)) (attrs : list attr)
+         (es : list pnlri) (frames : list (list N)),
+    encode_to p c (MReach f nh attrs es) = Ok frames ->
+    Forall attr_wf attrs -> code_not 3 attrs -> code_not 14 attrs -> fam_ok f ->
+    match nh with Some b => blen b < 248 | None => True end ->
+    Forall (labeled vpn (maxbits_of f)) es ->
+    exists ws chunks,
+      wire_attrs (two_byte c) attrs = Ok ws /\
+      concat chunks = es /\
+      Forall2 (reach_frame_labeled_ok c f vpn nh ws (es <> [])) frames chunks.
+Proof. exact C04_decode_encode_routes_labeled. Qed.
+Check decode_encode_routes_labeled :
+  forall (p : profile) (c : codec) (f : N) (vpn : bool) (nh : option (list N)) (attrs : list attr)
+         (es : list pnlri) (frames : list (list N)),
+    encode_to p c (MReach f nh attrs es) = Ok frames ->
+    Forall attr_wf attrs -> code_not 3 attrs -> code_not 14 attrs -> fam_ok f ->
+    match nh with Some b => blen b < 248 | None => True end ->
+    Forall (labeled vpn (maxbits_of f)) es ->
+    exists ws chunks,
+      wire_attrs (two_byte c) attrs = Ok ws /\
+      concat chunks = es /\
+      Forall2 (reach_frame_labeled_ok c f vpn nh ws (es <> [])) frames chunks.
+Print Assumptions decode_encode_routes_labeled.
